@@ -111,6 +111,13 @@ class Body:
             v = d["val"]
             if "l" in v and not v["p"]:
                 self.names.setdefault(v["l"], d["name"])
+        # shadowed / repeated names (two loops both desugar to `iter`): number the later ones
+        seen = {}
+        for l in sorted(self.names):
+            nm = self.names[l]
+            seen[nm] = seen.get(nm, 0) + 1
+            if seen[nm] > 1:
+                self.names[l] = "%s#%d" % (nm, seen[nm])
         self._succ = None
         self._pred = None
         self._dom = None
@@ -489,6 +496,19 @@ class Sym:
             self._memo[l] = ("var", body.local_name(l))  # cycle guard
             e = self.rvalue(sd[2], depth + 1)
         self._memo[l] = e
+        return e
+
+    def expand_var(self, e):
+        """For ('var', name) of a variable with a single definition (kept symbolic because it is mutably
+        borrowed, e.g. an iterator): the expression of that definition; otherwise e."""
+        if not (isinstance(e, tuple) and e[0] == "var"):
+            return e
+        for l in range(len(self.body.locals)):
+            if self.body.local_name(l) == e[1]:
+                sd = self.body.single_def(l)
+                if sd is None:
+                    return e
+                return self.rvalue(sd[2], 1)
         return e
 
     def _is_mut_user(self, l):
